@@ -169,9 +169,10 @@ Proof.
   - destruct (is_unknown (cell s)); [|exact Mono]. destruct (find_call id (waiting s)); exact Mono.
   - destruct (find_call id (waiting s)) as [f|]; [|exact Mono].
     destruct o as [code t| |]; cbn [cell].
-    + apply handle_inv. intros ->. apply in_or_app. right. cbn. left. reflexivity.
+    + destruct (is_unknown (cell s)); [|exact Mono].
+      apply handle_inv. intros ->. apply in_or_app. right. cbn. left. reflexivity.
     + destruct (is_unknown (cell s) && Nat.ltb (S f) 3); cbn [cell]; [exact Mono|].
-      apply handle_inv. discriminate.
+      destruct (is_unknown (cell s)); [apply handle_inv; discriminate|exact Mono].
     + exact Mono.
 Qed.
 
@@ -221,3 +222,90 @@ Proof.
   assert (SF' : single_flow_from (step s e) r = true) by (destruct e; exact SF).
   rewrite IH; auto. now rewrite C.
 Qed.
+
+(* ---- when lookups do not overlap ([single_flow]) a resolved cell is final ---- *)
+Definition flow_inv (s : cstate) : Prop :=
+  (length (waiting s) <= 1)%nat /\ (is_unknown (cell s) = false -> waiting s = []).
+
+Lemma flow_inv_step s e :
+  flow_inv s -> match e with Call _ => waiting s = [] | Reply _ _ => True end -> flow_inv (step s e).
+Proof.
+  intros [L K] G. destruct e as [id|id o]; cbn [step].
+  - rewrite G in *. destruct (is_unknown (cell s)) eqn:U.
+    + cbn [find_call app]. split; cbn; [lia|]. rewrite U. discriminate.
+    + split; [rewrite G; cbn; lia|intros _; exact G].
+  - destruct (waiting s) as [|[i f] [|x r]] eqn:W; cbn [length] in L; try lia.
+    + cbn [find_call]. split; [rewrite W; cbn; lia|intros _; exact W].
+    + assert (U : is_unknown (cell s) = true).
+      { destruct (is_unknown (cell s)) eqn:U; [reflexivity|]. specialize (K eq_refl). discriminate K. }
+      cbn [find_call]. destruct (Nat.eqb i id) eqn:E.
+      * assert (RM : remove_call id [(i, f)] = []).
+        { unfold remove_call. cbn [filter fst]. rewrite E. reflexivity. }
+        destruct o as [code t| |]; cbn [cell waiting]; rewrite ?RM.
+        -- split; [cbn; lia|auto].
+        -- rewrite U. cbn [andb]. destruct (Nat.ltb (S f) 3); cbn [cell waiting]; rewrite ?RM.
+           ++ split; [cbn; lia|]. cbn [cell]. rewrite U. discriminate.
+           ++ split; [cbn; lia|auto].
+        -- split; [cbn; lia|auto].
+      * split; [rewrite W; cbn; lia|]. rewrite U. discriminate.
+Qed.
+
+Lemma single_flow_split a : forall s b,
+  single_flow_from s (a ++ b) = true -> flow_inv s ->
+  flow_inv (fold_left step a s) /\ single_flow_from (fold_left step a s) b = true.
+Proof.
+  induction a as [|e r IH]; intros s b SF J; cbn [app fold_left]; [auto|].
+  cbn [app single_flow_from] in SF.
+  assert (G : match e with Call _ => waiting s = [] | Reply _ _ => True end).
+  { destruct e; [|exact I]. destruct (waiting s); [reflexivity|discriminate SF]. }
+  assert (SF' : single_flow_from (step s e) (r ++ b) = true).
+  { destruct e; [destruct (waiting s); [exact SF|discriminate SF]|exact SF]. }
+  apply IH; [exact SF'|]. apply flow_inv_step; assumption.
+Qed.
+
+Theorem single_flow_stable discovery a b :
+  single_flow discovery (a ++ b) = true ->
+  is_unknown (cell (run_events discovery a)) = false ->
+  cell (run_events discovery (a ++ b)) = cell (run_events discovery a).
+Proof.
+  unfold single_flow, run_events. intros SF U.
+  assert (J0 : flow_inv (init_c discovery)) by (split; cbn; [lia|auto]).
+  destruct (single_flow_split a (init_c discovery) b SF J0) as [[_ K] SFb].
+  rewrite fold_left_app. apply waiting_known_single; auto.
+Qed.
+
+(* ---- overlapping lookups (after fixes 276cfa2, 8e462bd: the first lookup to finish decides) ----
+   A resolved cell is FINAL: no event - new calls, answers (tables or error codes), unanswered attempts, other
+   failures of lookups still in progress - changes it.  So the format the Producer chose from it stays the format
+   of the version the client writes, also for later retries of the same payloads (findings F-C04-4, F-C04-5). *)
+Theorem resolved_cell_final_step s e : is_unknown (cell s) = false -> cell (step s e) = cell s.
+Proof.
+  intros U. destruct e as [id|id o]; cbn [step].
+  - rewrite U. reflexivity.
+  - destruct (find_call id (waiting s)) as [f|]; [|reflexivity].
+    destruct o as [code t| |]; rewrite ?U; cbn [andb cell]; reflexivity.
+Qed.
+
+Theorem resolved_cell_final evs : forall s,
+  is_unknown (cell s) = false -> cell (fold_left step evs s) = cell s.
+Proof.
+  induction evs as [|e r IH]; intros s U; cbn [fold_left]; [reflexivity|].
+  pose proof (resolved_cell_final_step s e U) as C. rewrite IH; [exact C|]. now rewrite C.
+Qed.
+
+Theorem resolved_state_final discovery a b :
+  is_unknown (cell (run_events discovery a)) = false ->
+  cell (run_events discovery (a ++ b)) = cell (run_events discovery a).
+Proof. unfold run_events. intros U. rewrite fold_left_app. now apply resolved_cell_final. Qed.
+
+(* the histories of findings F-C04-4 / F-C04-5, kept as regression vectors: the table stored by the lookup that
+   finished first survives a later failure and a later error answer of the other lookup *)
+Definition race_table : table := [mkEntry 0 0 7; mkEntry 1 0 10; mkEntry 18 0 2].
+Definition race_prefix : list event := [Call 0; Call 1; Reply 1 (Answer 0 race_table)].
+
+Lemma race_vectors :
+  table_ok race_table = true /\
+  choose (cell (run_events true race_prefix)) = Some (mkChoice 7 2 (Some 2) 10 2 (Some 2) 1) /\
+  choose (cell (run_events true (race_prefix ++ [Reply 0 Unavailable]))) = Some (mkChoice 7 2 (Some 2) 10 2 (Some 2) 1) /\
+  choose (cell (run_events true (race_prefix ++ [Reply 0 (Answer 35 [])]))) = Some (mkChoice 7 2 (Some 2) 10 2 (Some 2) 1).
+Proof. split; [vm_compute; reflexivity|]. split; [vm_compute; reflexivity|]. split; vm_compute; reflexivity. Qed.
